@@ -2,6 +2,8 @@
 """(re)writes /verif/seeded/<id>/meta.json: runs every claimed check against each seeded change in a
 scratch copy of /repo and records which checks fire with which keys."""
 import os, sys, json, subprocess, glob, re, tempfile, shutil
+sys.path.insert(0, os.path.dirname(os.path.abspath(__file__)))
+import _runchecks
 VERIF = os.path.dirname(os.path.dirname(os.path.abspath(__file__)))
 NEEDS = {
  'C04-overlay-entry-parked-across-commits': 'mixed state (tree keys around the cursor, an unprocessed overlay entry ahead), a further commit touching the gap or the parked key while the iterator is open, no seek/direction change in between (patch rebased onto the F17 fix)',
@@ -159,10 +161,11 @@ for d in sorted(glob.glob(os.path.join(VERIF, 'seeded', '*'))):
     applies = r.returncode == 0
     det = {}
     if applies:
-        for p in claimed:
-            rr = subprocess.run([os.path.join(VERIF, 'check'), p], cwd=VERIF, env=env, stdout=subprocess.PIPE, stderr=subprocess.STDOUT, text=True)
-            keys = re.findall(r'^VIOLATED \[[^\]]*\] (.*)$', rr.stdout, re.M)
-            if rr.returncode == 1 and keys:
+        for p, (rc, txt) in sorted(_runchecks.run(claimed, env).items()):
+            keys = re.findall(r'^VIOLATED \[[^\]]*\] (.*)$', txt, re.M)
+            if 'Traceback' in txt or 'FATAL' in txt:
+                print('   !! %s crashed on %s' % (p, name))
+            if rc == 1 and keys:
                 det[p] = sorted(set(k.split(' ', 1)[1] if k.startswith(p + ' ') else k for k in keys))[:4]
     subprocess.run(['rsync', '-a', '--delete', PRISTINE + '/', REPO + '/'], check=True)
     conf = ''
